@@ -70,13 +70,14 @@ def run(chk):
         "errors reported late by the kernel (close() after a deferred write error, NFS) are not modelled",
         "glibc stdio buffering is an assumption (theorems hold for every buffer size); the shim fails calls at the libc API level, stdio-internal write() errors are represented by failing fwrite/fputs/fclose",
         "parson abstracted (json_serialize_to_file_pretty = fopen, fputs, fclose); emulator side as in C09; the real ovniemu is run on the recovered trace",
+        "translate/units/rtfs.py: copy_thread_to_final, move_thdir_step, move_thdir_to_final, try_clean_dir and write_evbuf of src/rt/ovni.c are rendered on every run into coq/Gen/RtFs_gen.v as syntax trees (statements in C order, loops, break/continue, assignments in conditions, && / ||); their meaning is the hand-written interpreter coq/Rt/RtFsPre.v (a store for locals, every libc call a primitive that logs the RtFsDefs.op and takes its result from the environment: one injected fault, file contents in 1024-byte freads, readdir orders); coq/Proofs/RtFsGenProofs.v ties the calls, diagnostics and aborts of the interpreted code to RtFsDefs' instruction lists; clang's AST and the Python printer are trusted",
         "extraction (ExtrOcamlBasic only) + OCaml 4.13 + oracle/rtfs_drv.ml",
     ]
     chk.assumptions = ["exactly one failing call per run (the property's quantifier), everything else healthy",
                        "the trace directories do not exist before the run and nobody else writes into them",
                        "reading: 'a complete valid trace' = every stream of the program is complete (stream.json finished + stream.obs with every byte handed to write()) "
                        "in its final or in its temporary directory, and ovniemu accepts the streams taken from there"]
-    chk.prove()
+    chk.translate_and_prove(["rtfs"])
 
     build = common.repo_build("hook")
     tl = R.tools(build)
